@@ -7,6 +7,7 @@ pub mod c01;
 pub mod c02;
 pub mod c02bp;
 pub mod c02h3;
+pub mod c02sess;
 pub mod c02socks;
 pub mod c03;
 pub mod c03conn;
